@@ -462,7 +462,7 @@ func TestC17(t *testing.T) {
 		rate := sdkmath.LegacyNewDecWithPrec(int64(1+UniformDraw(rt, "rate", 20000)), 3)
 		amt := sdkmath.NewInt(int64(1 + UniformDraw(rt, "amt", 2_000_000_000)))
 		var msg sdk.Msg
-		which := UniformDraw(rt, "owner-msg", 12)
+		which := UniformDraw(rt, "owner-msg", 13)
 		switch which {
 		case 0:
 			msg = &tstypes.MsgUpdateSpotOrder{OwnerAddress: att, OrderId: c17Ids.Spot, OrderPrice: tstypes.OrderPrice{BaseDenom: ptypes.ATOM, QuoteDenom: ptypes.BaseCurrency, Rate: rate}}
@@ -486,8 +486,27 @@ func TestC17(t *testing.T) {
 			msg = &lptypes.MsgClose{Creator: att, Id: c17Ids.LP, LpAmount: amt.MulRaw(1_000_000_000)}
 		case 10:
 			msg = &lptypes.MsgUpdateStopLoss{Creator: att, Position: c17Ids.LP, Price: rate}
-		default:
+		case 11:
 			msg = &lptypes.MsgClaimRewards{Sender: att, Ids: []uint64{c17Ids.LP}}
+		default:
+			// pool listings: creating a pool is reserved to the accounts governance put on the allow-list (by default
+			// the governance account alone). The sender is on no list; half of the time governance has replaced the
+			// amm parameters with a set that carries an EMPTY allow-list
+			if w.App.AmmKeeper.GetParams(ctx).IsCreatorAllowed(att) {
+				att = w.Accounts[1].Addr.String() // the fixture's admin IS on the list (it created the pools)
+			}
+			if UniformDraw(rt, "emptylist", 2) == 1 {
+				ap := w.App.AmmKeeper.GetParams(ctx)
+				ap.AllowedPoolCreators = nil
+				w.App.AmmKeeper.SetParams(ctx, ap)
+			}
+			a1 := sdkmath.NewInt(int64(1_000_000 + UniformDraw(rt, "cp/a1", 1_000_000_000)))
+			a2 := sdkmath.NewInt(int64(1_000_000 + UniformDraw(rt, "cp/a2", 1_000_000_000)))
+			msg = &ammtypes.MsgCreatePool{Sender: att,
+				PoolParams: ammtypes.PoolParams{UseOracle: UniformDraw(rt, "cp/oracle", 2) == 1, SwapFee: sdkmath.LegacyNewDecWithPrec(int64(UniformDraw(rt, "cp/fee", 200)), 4), FeeDenom: ptypes.BaseCurrency},
+				PoolAssets: []ammtypes.PoolAsset{
+					{Token: sdk.NewCoin(ptypes.ATOM, a1), Weight: sdkmath.NewInt(50), ExternalLiquidityRatio: sdkmath.LegacyOneDec()},
+					{Token: sdk.NewCoin(ptypes.BaseCurrency, a2), Weight: sdkmath.NewInt(50), ExternalLiquidityRatio: sdkmath.LegacyOneDec()}}}
 		}
 		validBasic := safeValidateBasic(msg)
 		if signers, _, err := w.App.AppCodec().GetMsgV1Signers(msg); err != nil || len(signers) != 1 || !bytes.Equal(signers[0], sdk.MustAccAddressFromBech32(att)) {
